@@ -964,19 +964,23 @@ class Interp:
     def try_pure(self, node, env, assumption):
         """evaluate a side-effect free expression under a temporary assumption, without
         forking; returns (value,) or None when a fork / exception would be needed"""
+        return self.try_pure_call(lambda: self.eval(node, env), assumption)
+
+    def try_pure_call(self, fn, assumption):
         st = self.st
         n_pc = len(st.pc)
         n_taken, n_idx, n_alts = len(st.taken), st.idx, len(st.alts)
         n_vcs = len(st.vcs)
         counter = st.counter
         n_undo = len(st.undo_log)
+        n_keep = len(st.keep)
         st.solver.push()
         st.pc.append(assumption)
-        st.solver.add(assumption)
+        st.solver_add(assumption)
         self.nofork += 1
         kept = None
         try:
-            v = self.eval(node, env)
+            v = fn()
             if len(st.taken) != n_taken:
                 raise NeedFork()
             # definitions of fresh symbols introduced inside are kept
@@ -994,12 +998,16 @@ class Interp:
             return None
         finally:
             self.nofork -= 1
+            # decisions cached inside were taken under the temporary assumption: they must not outlive it
+            for cnd in st.keep[n_keep:]:
+                st.decided.pop(cnd.get_id(), None)
+            del st.keep[n_keep:]
             del st.pc[n_pc:]
             st.solver.pop()
             if kept:
                 for c in kept:
                     st.pc.append(c)
-                    st.solver.add(c)
+                    st.solver_add(c)
 
     def e_Compare(self, node, env):
         left = self.eval(node.left, env)
@@ -1295,7 +1303,7 @@ class Interp:
         if name in self.config.get('watch_attrs', ()) and isinstance(obj, SObj):
             self.st.events.append(('store', name, obj.tag, tuple(sorted(k for k, v2 in getattr(self, 'lock_depth', {}).items() if v2 > 0))))
         if isinstance(obj, SObj):
-            if obj.tag == 'symlist-element':
+            if obj.tag == 'symlist-element' or id(obj) in self.st.notes.get('frozen', ()):
                 self.unsupported("store into an element of a list of symbolic length (elements are read-only views)", node)
             obj.fields[name] = v
             return
@@ -1364,7 +1372,14 @@ class Interp:
                 body(e)
                 return
             g = generators[i]
-            for x in self.iterate(self.eval(g.iter, e), g):
+            pre = getattr(self, '_iter_cache', None)
+            if i == 0 and pre and id(g) in pre:
+                itv = pre.pop(id(g))
+            else:
+                itv = self.eval(g.iter, e)
+            if isinstance(itv, (SymList, EnumSym, SymRange)):
+                self.unsupported("comprehension over a list of symbolic length", g)
+            for x in self.iterate(itv, g):
                 e2 = Env({}, parent=e)
                 if isinstance(x, Repeat):
                     # one generic (opaque) element stands for every element of the symbolic segment;
@@ -1403,7 +1418,50 @@ class Interp:
             return Repeat(v, rs[-1].part)
         return v
 
+    def sym_generator(self, node, env, itv):
+        """generator expression over a list / range of symbolic length: one element expression over a bound index"""
+        g = node.generators[0]
+        if len(node.generators) != 1 or g.ifs:
+            self.unsupported("generator over a list of symbolic length with conditions / nested loops", node)
+        st = self.st
+        j = st.fresh_int('j')
+        e2 = Env({}, parent=env)
+        if isinstance(itv, SymRange):
+            lo, hi, src = itv.lo, itv.hi, None
+        else:
+            L = itv.lst if isinstance(itv, EnumSym) else itv
+            lo, hi, src = z3.IntVal(0), L.n, ListView(L)
+        self.generic_depth = getattr(self, 'generic_depth', 0) + 1
+        try:
+            if isinstance(itv, SymRange):
+                tv = SInt(j)
+            else:
+                el = self.models.symlist_generic_elem(self, L, j)
+                tv = (mk_int(j + itv.start), el) if isinstance(itv, EnumSym) else el
+
+            def body():
+                self.assign(g.target, tv, e2)
+                return self.eval(node.elt, e2)
+            r = self.try_pure_call(body, z3.And(lo <= j, j < hi))
+        finally:
+            self.generic_depth -= 1
+        if r is None:
+            self.unsupported("element expression of a generator over a list of symbolic length needs a case split", node)
+        v = r[0]
+        if isinstance(v, (bool, SBool)):
+            return MapSym(src, j, v.z if isinstance(v, SBool) else z3.BoolVal(v), 'bool', lo, hi)
+        if is_intlike(v):
+            return MapSym(src, j, to_zint(v), 'int', lo, hi)
+        if is_strlike(v):
+            return MapSym(src, j, str_z3(v), 'str', lo, hi)
+        self.unsupported("generator over a list of symbolic length yields non-scalar values", node)
+
     def e_GeneratorExp(self, node, env):
+        g0 = node.generators[0]
+        itv = self.eval(g0.iter, env)
+        if isinstance(itv, (SymList, EnumSym, SymRange)):
+            return self.sym_generator(node, env, itv)
+        self._iter_cache = {id(g0): itv}       # evaluated once
         out = []
         self.comp_iter(node.generators, env, lambda e: out.append(self._comp_value(node, e)))
         return SGen(out)
